@@ -108,8 +108,9 @@ let just_case tg ws base parents headers fblk fnum tblk tnum pcs ps obs =
         end
     end
 
-let check inp obs =
-  let f = split_ws inp in
+let rec take k l = if k <= 0 then [] else match l with [] -> [] | x :: r -> x :: take (k - 1) r
+
+let check_fields f inp obs =
   match f with
   | ["vs"; ws; ps] ->
     let ws = weights ws in
@@ -161,15 +162,18 @@ let check inp obs =
           { prop_ok = true; model_eq = false; nontrivial = false; finding = "-"; tags = "vc,bad-observation"; detail = obs }
         else begin
           let amb = ghost_ambiguous vs hs pcs in
+          let shift_free = ref true in
           let spec = commit_valid_spec vs hs thash tnum pcs in
           let per = List.map2 (fun p o ->
             let pp = permute pcs p in
-            let (r32, r64) = (match String.split_on_char '/' o with [a; b] -> (a, b) | _ -> ("?", "?")) in
+            let (r32, r64, r64s) = (match String.split_on_char '/' o with
+              | [a; b] -> (a, b, b) | [a; b; c] -> (a, b, c) | _ -> ("?", "?", "?")) in
+            shift_free := !shift_free && r64s = r64;
             let m = vr_str (validate_commit vs hs thash tnum pp) in
             let p32 = (match validate_commit_prefix (n_of_int 32) vs hs thash tnum pp with PV o -> vr_str o | PUnmodelled -> "unmodelled") in
             let p64 = (match validate_commit_prefix (n_of_int 64) vs hs thash tnum pp with PV o -> vr_str o | PUnmodelled -> "unmodelled") in
             (r32, r64, m, p32, p64)) orders outs in
-          let width_free = List.for_all (fun (a, b, _, _, _) -> a = b) per in
+          let width_free = List.for_all (fun (a, b, _, _, _) -> a = b) per && !shift_free in
           let valids = uniq (List.concat_map (fun (a, b, _, _, _) -> [valid_of a; valid_of b]) per) in
           let order_free = (List.length valids = 1) in
           let spec_ok = List.for_all (fun (a, b, _, _, _) -> valid_of a = Some spec && valid_of b = Some spec) per in
@@ -193,7 +197,8 @@ let check inp obs =
               @ (if List.length (uniq (List.map fst ws)) < List.length ws then ["vc-repeated-voter-id"] else []));
             detail = (if prop && eq then "" else
               Printf.sprintf "model=%s spec-valid=%b%s%s%s%s" m0 spec
-                (if width_free then "" else " (uint32 and uint64 verdicts differ)")
+                (if width_free then "" else if !shift_free then " (uint32 and uint64 verdicts differ)"
+                 else " (the verdict changes when 2^33 is added to every block number)")
                 (if order_free then "" else " (verdict depends on the precommit order)")
                 (if excess then " (equivocating weight exceeds total-threshold)" else "")
                 (if prefix_like && not eq then " (implementation behaves as the pre-fix code)" else "")) }
@@ -214,4 +219,63 @@ let check inp obs =
     just_case "vb" ws base parents headers fblk fnum tblk tnum pcs ps obs'
   | _ -> fail "C19: bad input %s" inp
 
-let () = run_driver check
+(* `vg` = `vc` + the hash labels of the blocks; `vj` / `vb` may carry a header salt: neither is an
+   input of the model (block hashes are labels; their order must not matter) *)
+let normalise inp =
+  let f = split_ws inp in
+  match f with
+  | "vg" :: r when List.length r = 9 -> ("vc" :: take 8 r, ["vc-nested-forks"])
+  | (("vj" | "vb") as k) :: r when List.length r = 13 -> (k :: take 12 r, [k ^ "-nested-forks"])
+  | _ -> (f, [])
+
+let check inp obs =
+  let (f, extra) = normalise inp in
+  let v = check_fields f inp obs in
+  if extra = [] then v else { v with tags = v.tags ^ "," ^ String.concat "," extra }
+
+(* vm_compute cross-check (C19/VmCheck.v): voter sets and ValidateCommit results recomputed inside
+   Coq for every listed order and compared with the implementation's observables *)
+let coq_list f l = "[" ^ String.concat "; " (List.map f l) ^ "]"
+let coq_bool b = if b then "true" else "false"
+let coq_pair (a, b) = Printf.sprintf "(%s, %s)" (coq_n a) (coq_n b)
+let coq inp obs =
+  let (f, _) = normalise inp in
+  match f with
+  | ["vs"; ws; ps] ->
+    let ws = weights ws in
+    let orders = perms ps (List.length ws) in
+    let outs = String.split_on_char ';' obs in
+    if List.length outs <> List.length orders then None else begin
+      let runs = List.map2 (fun p o -> (permute ws p, parse_vs o)) orders outs in
+      if List.exists (fun (_, v) -> v = None) runs then None else
+      Some ("vm_vs " ^ coq_list (fun (w, v) ->
+        Printf.sprintf "(%s, %s)" (coq_list coq_pair w)
+          (match v with
+           | Some (Some x) -> Printf.sprintf "Some (mkVS %s %s %s)" (coq_list coq_pair x.vs_voters)
+                                (coq_n x.vs_total) (coq_n x.vs_threshold)
+           | _ -> "None")) runs)
+    end
+  | ["vc"; ws; base; parents; headers; tblk; tnum; pcs; ps] when obs <> "novoters" ->
+    let raw = List.map (fun s -> match String.split_on_char '.' s with
+      | [i; b; nm; sg] -> (n_of_hex i, n_of_hex b, n_of_hex nm, n_of_hex sg)
+      | _ -> fail "C19: bad precommit %s" s) (split ',' pcs) in
+    let orders = perms ps (List.length raw) in
+    let outs = String.split_on_char ';' obs in
+    let parse_r o = (match String.split_on_char '/' o with
+      | _ :: r64 :: _ -> (match String.split_on_char ':' r64 with
+          | [v; n; d; q; i] -> Some (v = "1", n_of_hex n, n_of_hex d, n_of_hex q, n_of_hex i)
+          | _ -> None)
+      | _ -> None) in
+    if List.length outs <> List.length orders || List.exists (fun o -> parse_r o = None) outs then None else begin
+      let pc (i, b, nm, sg) = Printf.sprintf "(mkPc %s %s %s %s true)" (coq_n b) (coq_n nm) (coq_n i) (coq_n sg) in
+      let runs = List.map2 (fun p o ->
+        let (v, n, d, q, i) = (match parse_r o with Some x -> x | None -> (false, N0, N0, N0, N0)) in
+        Printf.sprintf "(%s, (%s, %s, %s, %s, %s))" (coq_list pc (permute raw p)) (coq_bool v) (coq_n n) (coq_n d)
+          (coq_n q) (coq_n i)) orders outs in
+      Some (Printf.sprintf "vm_vc %s %s %s %s %s %s [%s]" (coq_list coq_pair (weights ws)) (coq_n (n_of_hex base))
+              (coq_list coq_n (ints parents)) (coq_list coq_n (ints headers)) (coq_n (n_of_hex tblk))
+              (coq_n (n_of_hex tnum)) (String.concat "; " runs))
+    end
+  | _ -> None
+
+let () = run_driver ~coq check
